@@ -23,7 +23,8 @@ while args:
         checks = args.pop(0).split(",")
     else:
         names.append(a)
-B = "/verif/benign"
+V = os.path.dirname(os.path.dirname(os.path.abspath(__file__)))      # the checkout this script lives in
+B = V + "/benign"
 # changes that keep every property but the listed ones (the alarm of those checks is the expected, correct outcome)
 EXPECT = json.load(open(B + "/EXPECT.json")) if os.path.exists(B + "/EXPECT.json") else {}
 names = names or sorted(f[:-5] for f in os.listdir(B) if f.endswith(".diff"))
@@ -40,7 +41,7 @@ def one(name):
             return name, {"*": "patch does not apply: " + o[-200:]}
         for c in checks:
             t = time.time()
-            rc, o = sh("cd /verif && VERIF_REPO=%s VERIF_EVIDENCE_DIR=%s timeout 3000 ./check %s --tier quick" % (tree, evd, c))
+            rc, o = sh("cd %s && VERIF_REPO=%s VERIF_EVIDENCE_DIR=%s timeout 3000 ./check %s --tier quick" % (V, tree, evd, c))
             lines = [l for l in o.split("\n") if l.startswith("VIOLATION") or l.strip().startswith("what:") or "CHECK-BROKEN" in l or "SPEC-DRIFT" in l]
             res[c] = {"rc": rc, "wall_s": round(time.time() - t), "lines": [l[:300] for l in lines[:6]]}
             if c in EXPECT.get(name, []):
